@@ -239,7 +239,7 @@ pub fn default_runs(check: &str, tier: Tier) -> u64 {
         "C10" => (400_000, 8_000_000),
         "C16" => (200_000, 4_000_000),
         "C13" | "C15" => (1500, 30_000),
-        "C07" => (2500, 80_000),
+        "C07" => (6000, 120_000),
         _ => (1000, 20_000),
     };
     match tier {
